@@ -1395,8 +1395,19 @@ class ForAll(BinaryOperator):
 
     @property
     @lru_cache(maxsize=None)
+    def free_variables(self) -> List[Variable]:
+        """
+        The variables of the condition, other than the universal one, that range over a domain.
+        """
+        free_variables = self.condition._unique_variables_.difference(self.left._unique_variables_)
+        return [v.value for v in free_variables
+                if isinstance(v.value, Variable) and not isinstance(v.value, Literal)
+                and v.value._predicate_type_ is None and not v.value._is_inferred_]
+
+    @property
+    @lru_cache(maxsize=None)
     def condition_unique_variable_ids(self) -> List[int]:
-        return [v.id_ for v in self.condition._unique_variables_.difference(self.left._unique_variables_)]
+        return [v._id_ for v in self.free_variables]
 
     def _evaluate__(self, sources: Optional[Dict[int, HashedValue]] = None,
                     yield_when_false: bool = False) -> Iterable[Dict[int, HashedValue]]:
@@ -1405,44 +1416,61 @@ class ForAll(BinaryOperator):
         # Always reset per evaluation
         self.solution_set = []
 
-        var_val_index = 0
-
-        for var_val in self.variable._evaluate__(sources):
-            ctx = {**sources, **var_val}
-            current = []
-
-            # Evaluate the condition under this particular universal value
-            for condition_val in self.condition._evaluate__(ctx):
-                if self.condition._is_false_:
-                    continue
-                # Keep only the non-universal variables from the condition bindings
-                filtered = {k: v for k, v in condition_val.items() if k in self.condition_unique_variable_ids}
-                current.append(filtered)
-
-            # If the condition yields no satisfying bindings for this universal value, the universal fails
-            if not current:
-                self.solution_set = []
-                break
-
-            if var_val_index == 0:
-                # seed with all satisfying non-universal bindings
-                self.solution_set = current
+        candidates = None
+        for var_val in self.variable._evaluate__(copy(sources)):
+            universal_context = {**sources, **var_val}
+            if candidates is None:
+                # seed with every binding of the other variables that satisfies the condition for this value
+                candidates = list(self._satisfying_bindings_(universal_context))
             else:
-                # Intersect with previously accumulated satisfying bindings
-                current_set = {tuple(sorted(d.items())) for d in current}
-                self.solution_set = [d for d in self.solution_set if tuple(sorted(d.items())) in current_set]
-
-            var_val_index += 1
-
-            # Early exit if the intersection is empty
-            if not self.solution_set:
+                # keep the bindings that satisfy the condition for this value as well
+                candidates = [c for c in candidates if self._holds_({**universal_context, **c})]
+            # Early exit if no binding is left
+            if not candidates:
                 break
+
+        self.solution_set = candidates or []
 
         # Yield the remaining bindings (non-universal) merged with the incoming sources
-        for sol in self.solution_set or []:
+        for sol in self.solution_set:
             out = copy(sol)
             out.update(sources)
+            self._is_false_ = False
             yield out
+
+    def _satisfying_bindings_(self, context: Dict[int, HashedValue]) -> Iterable[Dict[int, HashedValue]]:
+        """
+        All distinct bindings of the free variables for which the condition is true in the given context, a free
+        variable that the condition left unbound (e.g. it only occurs in the other operand of a disjunction) takes
+        every value of its domain.
+        """
+        seen = set()
+        # every evaluation of the condition is independent of the ones done for other universal values.
+        self.condition._reset_cache_()
+        for condition_val in self.condition._evaluate__(copy(context)):
+            if self.condition._is_false_:
+                continue
+            # Keep only the non-universal variables from the condition bindings
+            partial = {k: v for k, v in condition_val.items() if k in self.condition_unique_variable_ids}
+            unbound = {v._id_: v._evaluate__(copy(context)) for v in self.free_variables
+                       if v._id_ not in partial and v._id_ not in context}
+            for extra in generate_combinations(unbound):
+                binding = copy(partial)
+                binding.update({var_id: val[var_id] for var_id, val in extra.items()})
+                key = tuple(sorted((k, v.id_) for k, v in binding.items()))
+                if key not in seen:
+                    seen.add(key)
+                    yield binding
+
+    def _holds_(self, context: Dict[int, HashedValue]) -> bool:
+        """
+        Whether the condition is true in a context that binds all of its variables.
+        """
+        self.condition._reset_cache_()
+        for _ in self.condition._evaluate__(context):
+            if not self.condition._is_false_:
+                return True
+        return False
 
 
 def not_contains(a, b):
